@@ -43,7 +43,7 @@ fn c06_method_linear_dim2() {
     kani::cover!(k < 0.0);
 }
 
-// @unit class=bounded tier=quick mem=light timeout=240 bound="dim=1" fns=linfa_kernel::KernelMethod::distance
+// @unit class=bounded tier=quick mem=light timeout=400 bound="dim=1" fns=linfa_kernel::KernelMethod::distance
 #[kani::proof]
 #[kani::unwind(10)]
 #[kani::stub(alloc::fmt::format, fmt_stub)]
@@ -58,7 +58,7 @@ fn c06_method_linear_dim1() {
     kani::cover!(k == f32::NEG_INFINITY);
 }
 
-// @unit class=bounded tier=quick mem=light timeout=240 bound="dim=2,coords in -8..8,eps=e/4 e in -16..16" fns=linfa_kernel::KernelMethod::distance
+// @unit class=bounded tier=quick mem=light timeout=400 bound="dim=2,coords in -8..8,eps=e/4 e in -16..16" fns=linfa_kernel::KernelMethod::distance
 #[kani::proof]
 #[kani::unwind(10)]
 #[kani::stub(alloc::fmt::format, fmt_stub)]
@@ -87,7 +87,7 @@ fn c06_method_gaussian_dim2() {
 }
 
 // Gaussian(a,a) = 1 for every bandwidth eps > 0 (incl. subnormal and +inf), every finite a: exp(-0/eps) with exp(+-0) = 1
-// @unit class=bounded tier=quick mem=light timeout=240 bound="dim=2" fns=linfa_kernel::KernelMethod::distance
+// @unit class=bounded tier=quick mem=light timeout=400 bound="dim=2" fns=linfa_kernel::KernelMethod::distance
 #[kani::proof]
 #[kani::unwind(10)]
 #[kani::stub(alloc::fmt::format, fmt_stub)]
@@ -130,7 +130,7 @@ fn c06_method_gaussian_dim1() {
     kani::cover!(eps < 0.0 && a != b);
 }
 
-// @unit class=bounded tier=quick mem=light timeout=240 bound="dim=2,coords in -8..8" fns=linfa_kernel::KernelMethod::distance
+// @unit class=bounded tier=quick mem=light timeout=400 bound="dim=2,coords in -8..8" fns=linfa_kernel::KernelMethod::distance
 #[kani::proof]
 #[kani::unwind(10)]
 #[kani::stub(alloc::fmt::format, fmt_stub)]
@@ -153,7 +153,7 @@ fn c06_method_polynomial_dim2() {
     kani::cover!(d == 3.0 && base == 2.0);
 }
 
-// @unit class=bounded tier=quick mem=light timeout=240 bound="dim=1" fns=linfa_kernel::KernelMethod::distance
+// @unit class=bounded tier=thorough mem=light timeout=900 bound="dim=1" fns=linfa_kernel::KernelMethod::distance
 #[kani::proof]
 #[kani::unwind(10)]
 #[kani::stub(alloc::fmt::format, fmt_stub)]
@@ -173,7 +173,7 @@ fn c06_method_polynomial_dim1() {
 // Symmetry k(a,b) = k(b,a) for the three kernels.  Commutativity of a float multiplier is out of reach of the SAT
 // back end on the full f32 domain (measured: no answer in 10 min), so coordinates are integers in [-8,8] (every
 // intermediate exact) and bandwidth / constant / degree range over small grids (exp and powf are uninterpreted anyway).
-// @unit class=bounded tier=quick mem=light timeout=240 bound="dim=2,coords in -8..8,eps=e/4 e in 1..16,c in -8..8,d=k/2 k in -8..8" fns=linfa_kernel::KernelMethod::distance
+// @unit class=bounded tier=thorough mem=light timeout=900 bound="dim=2,coords in -8..8,eps=e/4 e in 1..16,c in -8..8,d=k/2 k in -8..8" fns=linfa_kernel::KernelMethod::distance
 #[kani::proof]
 #[kani::unwind(10)]
 #[kani::stub(alloc::fmt::format, fmt_stub)]
